@@ -1,9 +1,10 @@
 (* C14: lemmas about model/Retry.v (the queue round trip of a retry) and about the RunTask handler of model/Engine.v. *)
-From Coq Require Import List Bool Arith ZArith Lia String.
+From Coq Require Import List Bool Arith ZArith Lia.
 Import ListNotations.
 From Stab.model Require Import Base StatusM Readiness StageStat Engine Retry.
 From Stab.gen Require Import Gen_Config Gen_Guards Gen_Queue Gen_Messages Gen_Retry.
-From Stab.proofs Require Import EngineP EngineLegal.
+From Stab.proofs Require Import EngineP EngineLegal EngineEx.
+Local Open Scope nat_scope.
 
 (* ------------------------------------------------------------------------------------------ *)
 (* Part 1: the round trip (model/Retry.v)                                                       *)
@@ -75,7 +76,7 @@ Proof.
   - cbn [redeliver]. unfold poll. change (poll_att_cmp (r_attempts r) queue_max_attempts) with (r_attempts r <? queue_max_attempts)%Z.
     replace (r_attempts r + Z.of_nat 0)%Z with (r_attempts r) by lia.
     destruct (r_attempts r <? queue_max_attempts)%Z; [|reflexivity].
-    change (field_overwritten "attempts") with true. cbn iota. unfold poll_seen_attempts. reflexivity.
+    replace (field_overwritten _) with true by reflexivity. cbn iota. unfold poll_seen_attempts. reflexivity.
   - cbn [redeliver]. unfold poll. change (poll_att_cmp (r_attempts r) queue_max_attempts) with (r_attempts r <? queue_max_attempts)%Z.
     destruct (r_attempts r <? queue_max_attempts)%Z eqn:E.
     + rewrite IH. cbn [r_attempts]. change claim_att_inc with 1%Z.
@@ -83,3 +84,593 @@ Proof.
     + apply Z.ltb_ge in E. destruct (r_attempts r + Z.of_nat (S k) <? queue_max_attempts)%Z eqn:E2; [|reflexivity].
       apply Z.ltb_lt in E2. lia.
 Qed.
+
+(* ------------------------------------------------------------------------------------------ *)
+(* Part 2: model/Engine.v                                                                      *)
+(* ------------------------------------------------------------------------------------------ *)
+(* ---- kv facts ---- *)
+Lemma kv_get_set_same k v m : kv_get k (kv_set k v m) = Some v.
+Proof.
+  induction m as [|[k' v'] m IH]; simpl.
+  - rewrite Nat.eqb_refl. reflexivity.
+  - destruct (k <? k') eqn:E1; simpl.
+    + rewrite Nat.eqb_refl. reflexivity.
+    + destruct (k =? k') eqn:E2; simpl.
+      * rewrite Nat.eqb_refl. reflexivity.
+      * rewrite E2. exact IH.
+Qed.
+
+Lemma kv_get_set_other k k' v m : k <> k' -> kv_get k (kv_set k' v m) = kv_get k m.
+Proof.
+  intros Hn. induction m as [|[k2 v2] m IH]; simpl.
+  - destruct (k =? k') eqn:E; [apply Nat.eqb_eq in E; congruence|reflexivity].
+  - destruct (k' <? k2) eqn:E1; simpl.
+    + destruct (k =? k') eqn:E; [apply Nat.eqb_eq in E; congruence|reflexivity].
+    + destruct (k' =? k2) eqn:E2; simpl.
+      * apply Nat.eqb_eq in E2. subst k2.
+        destruct (k =? k') eqn:E; [apply Nat.eqb_eq in E; congruence|reflexivity].
+      * destruct (k =? k2); [reflexivity|exact IH].
+Qed.
+
+(* the last binding of k in an update list *)
+Fixpoint last_binding (k : nat) (c : kv) : option Z :=
+  match c with
+  | [] => None
+  | (k', v) :: r => match last_binding k r with Some w => Some w | None => if k =? k' then Some v else None end
+  end.
+
+Lemma kv_get_update k c : forall m,
+  kv_get k (kv_update m c) = match last_binding k c with Some v => Some v | None => kv_get k m end.
+Proof.
+  unfold kv_update. induction c as [|[k' v] c IH]; intros m; simpl; [reflexivity|].
+  rewrite IH. destruct (last_binding k c); [reflexivity|].
+  destruct (k =? k') eqn:E.
+  - apply Nat.eqb_eq in E. subst. apply kv_get_set_same.
+  - apply kv_get_set_other. intros ->. rewrite Nat.eqb_refl in E. discriminate.
+Qed.
+
+
+(* the one commit of a retry / of a RUNNING re-poll *)
+Definition store_ctx (i : nat) (st : stage) (c : kv) : op := OPut i (st_data st (kv_update (s_ctx st) c) (s_outs st)).
+
+Definition retry_commit (i t : nat) (st : stage) (c : kv) : commit :=
+  match c with [] => [OPush (MRunTask i t)] | _ => [store_ctx i st c; OPush (MRunTask i t)] end.
+
+Lemma handle_exception_transient s id i t st a c :
+  handle_exception s id i t st a (RTransient c) =
+  if retry_guard a default_max_attempts then [retry_commit i t st c] else mark_terminal id i t st.
+Proof. unfold handle_exception. destruct (retry_guard a default_max_attempts); [|reflexivity]. destruct c; reflexivity. Qed.
+
+Lemma mark_terminal_shape id i t st :
+  mark_terminal id i t st = [[OPut i (st_exc st); OMark id; OPush (MCompleteTask i t (failure_status (s_cof st) (s_fp st) TERMINAL))]].
+Proof. reflexivity. Qed.
+
+Lemma process_result_running s id i t st tk c :
+  process_result s id i t st tk (RRunning c) = [[store_ctx i st c; OPush (MRunTask i t)]].
+Proof. reflexivity. Qed.
+
+(* RunTask on a RUNNING task of a live workflow executes the task and hands the result to the two functions above *)
+Lemma run_task_executes orc s id i t a st tk :
+  get_stage s i = Some st -> nth_error (s_tasks st) t = Some tk -> t_status tk = RUNNING ->
+  w_canceled s = false -> is_complete (w_status s) = false ->
+  handle_run_task orc s id i t a =
+  {| h_pre := Some (i, t);
+     h_commits := let r := orc i t (count_execs s i t) in
+                  match r with
+                  | RTransient _ | RPermanent => handle_exception s id i t st a r
+                  | _ => process_result s id i t st tk r end;
+     h_raised := false |}.
+Proof.
+  intros Hs Ht Hr Hc Hw. unfold handle_run_task. rewrite Hs, Ht, Hr, Hc, Hw. reflexivity.
+Qed.
+
+Record retry_ready (s : state) (id i t : nat) : Prop := {
+  rr_row : find_row s id = Some {| q_id := id; q_msg := MRunTask i t; q_attempts := 0 |};
+  rr_ids : Forall (fun r => q_id r < w_next s) (w_queue s);
+  rr_marks : Forall (fun p => p < w_next s) (w_processed s);
+  rr_unmarked : mem_nat id (w_processed s) = false;
+  rr_task : exists st tk, get_stage s i = Some st /\ nth_error (s_tasks st) t = Some tk /\ t_status tk = RUNNING;
+  rr_flag : w_canceled s = false;
+  rr_live : is_complete (w_status s) = false
+}.
+
+Definition transient_forever (orc : oracle) (i t : nat) : Prop := forall n, exists c, orc i t n = RTransient c.
+
+Lemma step_shape orc s id i t :
+  retry_ready s id i t -> transient_forever orc i t ->
+  exists st c,
+    get_stage s i = Some st /\
+    step orc s (Deliver id true) =
+    apply_commits [retry_commit i t st c; [OMark id]; [OAck id]] (ghost_exec i t (bump_attempts id s)).
+Proof.
+  intros R Ho. destruct R as [Hrow Hids Hmarks Hun [st [tk [Hs [Ht Hr]]]] Hc Hw].
+  destruct (Ho (count_execs s i t)) as [c Hc'].
+  exists st, c. split; [exact Hs|].
+  cbn [step]. unfold delivery_commits. rewrite Hrow. cbn [q_attempts q_msg].
+  change (queue_max_attempts <=? 0)%Z with false. cbn iota.
+  change (w_processed (bump_attempts id s)) with (w_processed s). rewrite Hun.
+  unfold handle. cbn [q_msg q_id q_attempts].
+  rewrite (run_task_executes orc (bump_attempts id s) id i t (0 + 1)%Z st tk Hs Ht Hr Hc Hw).
+  cbn [h_pre h_commits h_raised d_poll d_pre d_rest].
+  change (count_execs (bump_attempts id s) i t) with (count_execs s i t). rewrite Hc'. cbn zeta iota.
+  rewrite handle_exception_transient. change (retry_guard (0 + 1) default_max_attempts) with true. cbn iota.
+  reflexivity.
+Qed.
+
+Definition after_retry (s : state) (id i t : nat) (st : stage) (c : kv) : state :=
+  apply_commits [retry_commit i t st c; [OMark id]; [OAck id]] (ghost_exec i t (bump_attempts id s)).
+
+Definition bump_row (id : nat) (r : qrow) : qrow :=
+  if q_id r =? id then {| q_id := q_id r; q_msg := q_msg r; q_attempts := q_attempts r + 1 |} else r.
+
+Lemma after_retry_fields s id i t st c :
+  let s' := after_retry s id i t st c in
+  w_queue s' = filter (fun r => negb (q_id r =? id))
+                      (map (bump_row id) (w_queue s) ++ [{| q_id := w_next s; q_msg := MRunTask i t; q_attempts := 0 |}]) /\
+  w_next s' = S (w_next s) /\
+  w_processed s' = (if mem_nat id (w_processed s) then w_processed s else id :: w_processed s) /\
+  w_stages s' = match c with [] => w_stages s | _ => list_set (w_stages s) i (st_data st (kv_update (s_ctx st) c) (s_outs st)) end /\
+  w_canceled s' = w_canceled s /\ w_status s' = w_status s /\ g_execs s' = (i, t) :: g_execs s.
+Proof. destruct c; cbn; repeat split. Qed.
+
+Lemma find_none_ids (q : list qrow) n : Forall (fun r => q_id r < n) q -> find (fun r => q_id r =? n) q = None.
+Proof.
+  induction q as [|r q IH]; simpl; intros H; [reflexivity|]. inversion H; subst.
+  destruct (q_id r =? n) eqn:E; [apply Nat.eqb_eq in E; lia|]. apply IH. assumption.
+Qed.
+
+Lemma find_app_none {A} (f : A -> bool) l1 l2 : find f l1 = None -> find f (l1 ++ l2) = find f l2.
+Proof. induction l1 as [|a l1 IH]; simpl; [reflexivity|]. destruct (f a); [discriminate|]. exact IH. Qed.
+
+Lemma bump_row_id id r : q_id (bump_row id r) = q_id r.
+Proof. unfold bump_row. destruct (q_id r =? id); reflexivity. Qed.
+
+Lemma Forall_ids_bump id n q : Forall (fun r => q_id r < n) q -> Forall (fun r => q_id r < n) (map (bump_row id) q).
+Proof. intros H. apply Forall_map. eapply Forall_impl; [|exact H]. intros r Hr. simpl. rewrite bump_row_id. exact Hr. Qed.
+
+Lemma Forall_filter {A} (P : A -> Prop) f l : Forall P l -> Forall P (filter f l).
+Proof. induction l as [|a l IH]; simpl; intros H; [constructor|]. inversion H; subst. destruct (f a); [constructor|]; auto. Qed.
+
+Lemma mem_nat_lt n l : Forall (fun p => p < n) l -> mem_nat n l = false.
+Proof.
+  unfold mem_nat. induction l as [|a l IH]; simpl; intros H; [reflexivity|]. inversion H; subst.
+  destruct (n =? a) eqn:E; [apply Nat.eqb_eq in E; lia|]. apply IH. assumption.
+Qed.
+
+Lemma find_row_id s id r : find_row s id = Some r -> q_id r = id /\ In r (w_queue s).
+Proof. unfold find_row. intros H. apply find_some in H. destruct H as [H1 H2]. apply Nat.eqb_eq in H2. auto. Qed.
+
+Lemma retry_step orc s id i t :
+  retry_ready s id i t -> transient_forever orc i t ->
+  let s' := step orc s (Deliver id true) in
+  retry_ready s' (w_next s) i t /\ g_execs s' = (i, t) :: g_execs s /\ w_status s' = w_status s /\ w_next s' = S (w_next s).
+Proof.
+  intros R Ho s'. destruct (step_shape orc s id i t R Ho) as [st [c [Hs E]]].
+  unfold s'. rewrite E. clear E s'. fold (after_retry s id i t st c).
+  destruct (after_retry_fields s id i t st c) as [Eq [En [Ep [Est [Ec [Ew Ex]]]]]].
+  destruct R as [Hrow Hids Hmarks Hun [st0 [tk [Hs0 [Ht Hr]]]] Hc Hw].
+  rewrite Hs in Hs0. inversion Hs0; subst st0. clear Hs0.
+  destruct (find_row_id _ _ _ Hrow) as [_ Hin].
+  assert (id < w_next s) as Hlt. { rewrite Forall_forall in Hids. apply (Hids _ Hin). }
+  rewrite Hun in Ep.
+  split; [|auto].
+  constructor.
+  - unfold find_row. rewrite Eq, filter_app. rewrite find_app_none.
+    + simpl. destruct (w_next s =? id) eqn:E; [apply Nat.eqb_eq in E; lia|]. simpl. rewrite Nat.eqb_refl. reflexivity.
+    + apply find_none_ids. apply Forall_filter, Forall_ids_bump, Hids.
+  - rewrite Eq, En, filter_app. apply Forall_app. split.
+    + apply Forall_filter, Forall_ids_bump. eapply Forall_impl; [|exact Hids]. simpl. intros; lia.
+    + apply Forall_filter. constructor; [simpl; lia|constructor].
+  - rewrite Ep, En. constructor; [lia|]. eapply Forall_impl; [|exact Hmarks]. simpl. intros; lia.
+  - rewrite Ep. apply mem_nat_lt. constructor; [exact Hlt|exact Hmarks].
+  - unfold get_stage. rewrite Est. destruct c as [|p c].
+    + exists st, tk. auto.
+    + exists (st_data st (kv_update (s_ctx st) (p :: c)) (s_outs st)), tk. split; [|split; [exact Ht|exact Hr]].
+      apply nth_list_set_same with st. exact Hs.
+  - rewrite Ec. exact Hc.
+  - rewrite Ew. exact Hw.
+Qed.
+
+(* ---- the unbounded run ---- *)
+Lemma count_execs_cons s i t p l :
+  g_execs s = p :: l -> count_execs s i t = (if (fst p =? i) && (snd p =? t) then 1 else 0) + length (filter (fun p => (fst p =? i) && (snd p =? t)) l).
+Proof. unfold count_execs. intros ->. simpl. destruct ((fst p =? i) && (snd p =? t)); reflexivity. Qed.
+
+Theorem retry_forever orc i t (Ho : transient_forever orc i t) n : forall s id,
+  retry_ready s id i t ->
+  exists acts, length acts = n /\
+    let s' := run orc s acts in
+    count_execs s' i t = n + count_execs s i t /\ w_status s' = w_status s /\ exists id', retry_ready s' id' i t.
+Proof.
+  induction n as [|n IH]; intros s id R.
+  - exists []. simpl. repeat split. exists id. exact R.
+  - destruct (retry_step orc s id i t R Ho) as [R' [Ex [Ew _]]].
+    destruct (IH _ _ R') as [acts [Hl [Hc [Hw [id' R'']]]]].
+    exists (Deliver id true :: acts). split; [simpl; congruence|].
+    cbn [run fold_left]. fold (run orc (step orc s (Deliver id true)) acts).
+    split; [|split; [congruence|exists id'; exact R'']].
+    rewrite Hc. rewrite (count_execs_cons _ i t _ _ Ex). simpl. rewrite !Nat.eqb_refl. simpl. unfold count_execs. lia.
+Qed.
+
+Definition one_task_workflow : state := init_state [ex_stage [] 1] None.
+Definition warm_up : list action := [Submit; Deliver 1 true; Deliver 2 true; Deliver 3 true].
+
+Lemma warm_up_ready orc : retry_ready (run orc one_task_workflow warm_up) 4 0 0 /\ w_status (run orc one_task_workflow warm_up) = RUNNING
+   /\ count_execs (run orc one_task_workflow warm_up) 0 0 = 0.
+Proof.
+  split; [|split; vm_compute; reflexivity].
+  constructor; try (vm_compute; reflexivity).
+  - vm_compute. repeat constructor.
+  - vm_compute. repeat constructor.
+  - vm_compute. eexists. eexists. split; [reflexivity|]. split; reflexivity.
+Qed.
+
+Lemma run_app orc s a b : run orc s (a ++ b) = run orc (run orc s a) b.
+Proof. unfold run. apply fold_left_app. Qed.
+
+Definition task_status (s : state) (i t : nat) : option status :=
+  match get_stage s i with Some st => option_map t_status (nth_error (s_tasks st) t) | None => None end.
+
+Theorem unbounded_engine orc (Ho : transient_forever orc 0 0) n :
+  exists acts, let s := run orc one_task_workflow acts in
+    n <= count_execs s 0 0 /\ task_status s 0 0 = Some RUNNING /\ w_status s = RUNNING.
+Proof.
+  destruct (warm_up_ready orc) as [R [Hw Hc]].
+  destruct (retry_forever orc 0 0 Ho n _ _ R) as [acts [_ [Hcnt [Hst [id' R']]]]].
+  exists (warm_up ++ acts). cbn zeta. rewrite run_app. split; [lia|]. split; [|congruence].
+  destruct R' as [_ _ _ _ [st [tk [Hs [Ht Hr]]]] _ _]. unfold task_status. rewrite Hs, Ht. simpl. congruence.
+Qed.
+
+(* ------------------------------------------------------------------------------------------ *)
+(* redelivery of the SAME row                                                                  *)
+(* ------------------------------------------------------------------------------------------ *)
+Definition row_safe (o : op) : bool := match o with OBump _ | OAck _ => false | _ => true end.
+
+Lemma find_app_some {A} (f : A -> bool) l1 l2 x : find f l1 = Some x -> find f (l1 ++ l2) = Some x.
+Proof. induction l1 as [|a l1 IH]; simpl; [discriminate|]. destruct (f a); auto. Qed.
+
+Lemma find_row_safe_op s id r o : row_safe o = true -> find_row s id = Some r -> find_row (apply_op s o) id = Some r.
+Proof.
+  destruct o; simpl; try discriminate; intros _ H; try exact H.
+  - unfold mutate_stage. destruct (get_stage s i); exact H.
+  - unfold find_row in *. simpl. apply find_app_some. exact H.
+Qed.
+
+Lemma find_row_safe_commit c : forall s id r,
+  forallb row_safe c = true -> find_row s id = Some r -> find_row (apply_commit s c) id = Some r.
+Proof.
+  unfold apply_commit. induction c as [|o c IH]; simpl; intros s id r H Hr; [exact Hr|].
+  apply andb_true_iff in H. destruct H as [Ho Hc]. apply IH; [exact Hc|]. apply find_row_safe_op; assumption.
+Qed.
+
+Lemma find_row_none_op s id o : (forall j, o <> OPush j) -> find_row s id = None -> find_row (apply_op s o) id = None.
+Proof.
+  intros Hp. destruct o; simpl; intros H; try exact H.
+  - unfold mutate_stage. destruct (get_stage s i); exact H.
+  - exfalso. eapply Hp. reflexivity.
+  - unfold find_row in *. simpl. induction (w_queue s) as [|r q IH]; simpl in *; [reflexivity|].
+    destruct (q_id r =? id) eqn:E; [discriminate|].
+    destruct (q_id r =? id0); simpl; rewrite E; apply IH; exact H.
+  - unfold find_row in *. simpl. induction (w_queue s) as [|r q IH]; simpl in *; [reflexivity|].
+    destruct (q_id r =? id) eqn:E; [discriminate|].
+    destruct (negb (q_id r =? id0)); simpl; [rewrite E|]; apply IH; exact H.
+Qed.
+
+Lemma find_row_bump s id r :
+  find_row s id = Some r ->
+  find_row (bump_attempts id s) id = Some {| q_id := q_id r; q_msg := q_msg r; q_attempts := q_attempts r + 1 |}.
+Proof.
+  unfold find_row, bump_attempts. simpl. induction (w_queue s) as [|a q IH]; simpl; [discriminate|].
+  destruct (q_id a =? id) eqn:E; simpl.
+  - intros H. inversion H; subst. rewrite E. reflexivity.
+  - rewrite E. exact IH.
+Qed.
+
+Lemma find_row_ack s id : find_row (ack id s) id = None.
+Proof.
+  unfold find_row, ack. simpl. induction (w_queue s) as [|a q IH]; simpl; [reflexivity|].
+  destruct (q_id a =? id) eqn:E; simpl; [exact IH|]. rewrite E. exact IH.
+Qed.
+
+(* every commit RunTask can produce leaves existing queue rows alone *)
+Lemma run_task_row_safe orc s id i t a :
+  Forall (fun c => forallb row_safe c = true) (h_commits (handle_run_task orc s id i t a)).
+Proof.
+  unfold handle_run_task.
+  destruct (get_stage s i) as [st|]; [|constructor].
+  destruct (nth_error (s_tasks st) t) as [tk|]; [|constructor].
+  destruct (negb (run_task_guard (t_status tk))); [repeat constructor|].
+  destruct (w_canceled s); [repeat constructor|].
+  destruct (is_complete (w_status s)); [repeat constructor|].
+  cbn [h_commits]. destruct (orc i t (count_execs s i t)) as [o| | | |c|c| |tg| | | |]; cbn zeta iota;
+    try (unfold process_result; repeat constructor; fail).
+  - rewrite handle_exception_transient. destruct (retry_guard a default_max_attempts); [|repeat constructor].
+    destruct c; repeat constructor.
+  - unfold process_result. destruct (s_buffered st); repeat constructor.
+Qed.
+
+Definition on_row (id : nat) (a : action) : Prop :=
+  match a with Deliver id' _ | DeliverCut id' _ => id' = id | _ => False end.
+
+Definition attempts_left (s : state) (id : nat) : nat :=
+  match find_row s id with Some r => Z.to_nat (queue_max_attempts - q_attempts r) | None => 0 end.
+
+Definition run_task_row (s : state) (id : nat) : Prop :=
+  forall r, find_row s id = Some r -> exists i t, q_msg r = MRunTask i t.
+
+Definition row_or_gone (s : state) (id : nat) (r : qrow) : Prop := find_row s id = Some r \/ find_row s id = None.
+
+Lemma next_op s o : w_next s <= w_next (apply_op s o).
+Proof. destruct o; simpl; try lia. unfold mutate_stage. destruct (get_stage s i); simpl; lia. Qed.
+
+Lemma next_commit c : forall s, w_next s <= w_next (apply_commit s c).
+Proof. unfold apply_commit. induction c as [|o c IH]; simpl; intros s; [lia|]. specialize (IH (apply_op s o)). pose proof (next_op s o). lia. Qed.
+
+Lemma row_or_gone_op s id r o :
+  id < w_next s -> row_safe o = true \/ o = OAck id -> row_or_gone s id r -> row_or_gone (apply_op s o) id r.
+Proof.
+  intros Hlt [Ho|Ho] [H|H].
+  - left. apply find_row_safe_op; assumption.
+  - right. destruct o; try discriminate; simpl; try exact H.
+    + unfold mutate_stage. destruct (get_stage s i); exact H.
+    + unfold find_row in *. simpl. rewrite find_app_none by exact H. simpl.
+      destruct (w_next s =? id) eqn:E; [apply Nat.eqb_eq in E; lia|reflexivity].
+  - subst o. right. apply find_row_ack.
+  - subst o. right. apply find_row_ack.
+Qed.
+
+Definition safe_or_ack (id : nat) (c : commit) : Prop := forallb row_safe c = true \/ c = [OAck id].
+
+Lemma row_or_gone_commit id r c : forall s,
+  id < w_next s -> safe_or_ack id c -> row_or_gone s id r -> row_or_gone (apply_commit s c) id r.
+Proof.
+  intros s Hlt [Hc|Hc] H.
+  - revert s Hlt H. unfold apply_commit. induction c as [|o c IH]; simpl; intros s Hlt H; [exact H|].
+    apply andb_true_iff in Hc. destruct Hc as [Ho Hc]. apply IH; [exact Hc| |].
+    + pose proof (next_op s o). lia.
+    + apply row_or_gone_op; auto.
+  - subst c. unfold apply_commit. simpl. apply (row_or_gone_op s id r (OAck id)); auto.
+Qed.
+
+Lemma row_or_gone_commits id r cs : forall s,
+  id < w_next s -> Forall (safe_or_ack id) cs -> row_or_gone s id r -> row_or_gone (apply_commits cs s) id r.
+Proof.
+  induction cs as [|c cs IH]; simpl; intros s Hlt H Hr; [exact Hr|]. inversion H; subst.
+  apply IH; [pose proof (next_commit c s); lia|assumption|]. apply row_or_gone_commit; assumption.
+Qed.
+
+Lemma next_commits cs : forall s, w_next s <= w_next (apply_commits cs s).
+Proof. induction cs as [|c cs IH]; simpl; intros s; [lia|]. specialize (IH (apply_commit s c)). pose proof (next_commit c s). lia. Qed.
+
+Lemma Forall_firstn {A} (P : A -> Prop) l k : Forall P l -> Forall P (firstn k l).
+Proof. revert k. induction l as [|a l IH]; intros [|k] H; simpl; try constructor; inversion H; subst; auto. Qed.
+
+Lemma execs_pre p s : length (g_execs (apply_pre p s)) <= S (length (g_execs s)).
+Proof. destruct p as [[i t]|]; simpl; lia. Qed.
+
+(* the commits after the poll of a RunTask row are row-safe or the row's own ack *)
+Lemma delivery_rest_safe orc s id do_ack d r :
+  find_row s id = Some r -> (exists i t, q_msg r = MRunTask i t) ->
+  delivery_commits orc s id do_ack = Some d ->
+  d_poll d = [OBump id] /\ Forall (safe_or_ack id) (d_rest d) /\ (q_attempts r < queue_max_attempts)%Z.
+Proof.
+  intros Hr [i [t Hm]]. unfold delivery_commits. rewrite Hr.
+  destruct (queue_max_attempts <=? q_attempts r)%Z eqn:E; [discriminate|]. apply Z.leb_gt in E.
+  destruct (mem_nat id (w_processed (bump_attempts id s))).
+  - intros H. inversion H. simpl. split; [reflexivity|]. split; [|exact E].
+    destruct do_ack; [|constructor]. constructor; [right; reflexivity|constructor].
+  - intros H. inversion H. simpl. split; [reflexivity|]. split; [|exact E].
+    apply Forall_app. split.
+    + unfold handle. cbn [q_msg]. rewrite Hm. eapply Forall_impl; [|apply run_task_row_safe]. intros c Hc. left. exact Hc.
+    + destruct (h_raised _); [constructor|]. constructor; [left; reflexivity|].
+      destruct do_ack; [|constructor]. constructor; [right; reflexivity|constructor].
+Qed.
+
+Lemma same_row_action orc s id a :
+  id < w_next s -> run_task_row s id -> on_row id a ->
+  let s' := step orc s a in
+  id < w_next s' /\ run_task_row s' id /\
+  length (g_execs s') + attempts_left s' id <= length (g_execs s) + attempts_left s id.
+Proof.
+  intros Hlt Hrun Hon s'.
+  assert (forall d k, find_row s id <> None ->
+            (forall r, find_row s id = Some r ->
+               d_poll d = [OBump id] /\ Forall (safe_or_ack id) (d_rest d) /\ (q_attempts r < queue_max_attempts)%Z) ->
+            let s2 := apply_commits (firstn k (d_rest d)) (apply_pre (d_pre d) (apply_commit s (d_poll d))) in
+            id < w_next s2 /\ run_task_row s2 id /\
+            length (g_execs s2) + attempts_left s2 id <= length (g_execs s) + attempts_left s id) as Core.
+  { intros d k Hex Hd s2. destruct (find_row s id) as [r|] eqn:Hr; [|congruence].
+    destruct (Hd r eq_refl) as [Hp [Hs Ha]]. unfold s2. rewrite Hp.
+    set (r1 := {| q_id := q_id r; q_msg := q_msg r; q_attempts := q_attempts r + 1 |}).
+    assert (find_row (apply_pre (d_pre d) (apply_commit s [OBump id])) id = Some r1) as H1.
+    { replace (find_row (apply_pre (d_pre d) (apply_commit s [OBump id])) id) with (find_row (bump_attempts id s) id)
+        by (destruct (d_pre d) as [[? ?]|]; reflexivity).
+      apply find_row_bump. exact Hr. }
+    assert (id < w_next (apply_pre (d_pre d) (apply_commit s [OBump id]))) as H2
+      by (destruct (d_pre d) as [[? ?]|]; exact Hlt).
+    pose proof (row_or_gone_commits id r1 (firstn k (d_rest d)) _ H2 (Forall_firstn _ _ k Hs) (or_introl H1)) as H3.
+    pose proof (next_commits (firstn k (d_rest d)) (apply_pre (d_pre d) (apply_commit s [OBump id]))) as H4.
+    split; [lia|]. split.
+    - intros r' Hr'. destruct H3 as [H3|H3]; [|congruence]. rewrite H3 in Hr'. inversion Hr'; subst r'. simpl. apply Hrun. exact Hr.
+    - rewrite execs_commits. pose proof (execs_pre (d_pre d) (apply_commit s [OBump id])) as H5.
+      rewrite execs_commit in H5. unfold attempts_left. rewrite Hr.
+      destruct H3 as [H3|H3]; rewrite H3; [unfold r1; cbn [q_attempts]|]; lia. }
+  destruct a; simpl in Hon; try contradiction; subst id0; unfold s'; cbn [step].
+  - destruct (delivery_commits orc s id do_ack) as [d|] eqn:Hd.
+    2:{ split; [exact Hlt|]. split; [exact Hrun|lia]. }
+    destruct (find_row s id) as [r|] eqn:Hr.
+    2:{ unfold delivery_commits in Hd. rewrite Hr in Hd. discriminate. }
+    rewrite <- (firstn_all (d_rest d)). apply Core; [congruence|].
+    intros r' E. assert (r' = r) by congruence. subst r'. eapply delivery_rest_safe; eauto.
+  - destruct k as [|k']. { split; [exact Hlt|]. split; [exact Hrun|lia]. }
+    destruct (delivery_commits orc s id true) as [d|] eqn:Hd.
+    2:{ split; [exact Hlt|]. split; [exact Hrun|lia]. }
+    destruct (find_row s id) as [r|] eqn:Hr.
+    2:{ unfold delivery_commits in Hd. rewrite Hr in Hd. discriminate. }
+    apply Core; [congruence|].
+    intros r' E. assert (r' = r) by congruence. subst r'. eapply delivery_rest_safe; eauto.
+Qed.
+
+Theorem same_row_bounded orc id acts : forall s,
+  id < w_next s -> run_task_row s id -> Forall (on_row id) acts ->
+  length (g_execs (run orc s acts)) <= length (g_execs s) + attempts_left s id.
+Proof.
+  unfold run. induction acts as [|a acts IH]; simpl; intros s Hlt Hrun H; [lia|].
+  inversion H; subst. destruct (same_row_action orc s id a Hlt Hrun H2) as [H1 [H4 H5]].
+  specialize (IH _ H1 H4 H3). lia.
+Qed.
+
+(* a row the attempts filter hides is never delivered again *)
+Lemma hidden_row_noop orc s id r a :
+  find_row s id = Some r -> (queue_max_attempts <= q_attempts r)%Z -> on_row id a -> step orc s a = s.
+Proof.
+  intros Hr Ha Hon. destruct a; simpl in Hon; try contradiction; subst; cbn [step]; unfold delivery_commits; rewrite Hr.
+  - apply Z.leb_le in Ha. rewrite Ha. reflexivity.
+  - apply Z.leb_le in Ha. rewrite Ha. destruct k; reflexivity.
+Qed.
+
+(* ------------------------------------------------------------------------------------------ *)
+(* saved progress                                                                              *)
+(* ------------------------------------------------------------------------------------------ *)
+Definition stage_ctx (s : state) (i : nat) : option kv := option_map s_ctx (get_stage s i).
+
+Definition has_row (s : state) (id : nat) (m : msg) : Prop :=
+  exists r, find_row s id = Some r /\ q_msg r = m /\ q_attempts r = 0%Z.
+
+(* what a result that keeps the task running carries *)
+Definition kept_ctx (r : tresult) : option kv :=
+  match r with RTransient c | RRunning c => Some c | _ => None end.
+
+Lemma kv_update_nil m : kv_update m [] = m.
+Proof. reflexivity. Qed.
+
+(* P1: the delivery of a RunTask row whose task fails transiently (within the budget) or reports RUNNING: the handler's
+   commits are exactly ONE commit holding both the context store and the push of the next RunTask *)
+Lemma delivery_keeps_progress orc s id do_ack r0 i t st tk c :
+  find_row s id = Some r0 -> q_msg r0 = MRunTask i t -> (q_attempts r0 < queue_max_attempts)%Z ->
+  mem_nat id (w_processed s) = false ->
+  get_stage s i = Some st -> nth_error (s_tasks st) t = Some tk -> t_status tk = RUNNING ->
+  w_canceled s = false -> is_complete (w_status s) = false ->
+  kept_ctx (orc i t (count_execs s i t)) = Some c ->
+  (forall c', orc i t (count_execs s i t) = RTransient c' -> retry_guard (q_attempts r0 + 1) default_max_attempts = true) ->
+  exists one : commit,
+    delivery_commits orc s id do_ack =
+      Some {| d_poll := [OBump id]; d_pre := Some (i, t);
+              d_rest := one :: [OMark id] :: (if do_ack then [[OAck id]] else []) |} /\
+    (one = retry_commit i t st c \/ one = [store_ctx i st c; OPush (MRunTask i t)]).
+Proof.
+  intros Hr Hm Ha Hun Hs Ht Hrun Hc Hw Hk Hg.
+  unfold delivery_commits. rewrite Hr.
+  destruct (queue_max_attempts <=? q_attempts r0)%Z eqn:E; [apply Z.leb_le in E; lia|].
+  change (w_processed (bump_attempts id s)) with (w_processed s). rewrite Hun.
+  unfold handle. cbn [q_msg q_id q_attempts]. rewrite Hm.
+  rewrite (run_task_executes orc (bump_attempts id s) id i t (q_attempts r0 + 1)%Z st tk Hs Ht Hrun Hc Hw).
+  cbn [h_pre h_commits h_raised].
+  change (count_execs (bump_attempts id s) i t) with (count_execs s i t).
+  destruct (orc i t (count_execs s i t)) as [o| | | |c0|c0| |tg| | | |] eqn:Ho; try discriminate; simpl in Hk; inversion Hk; subst c0; cbn zeta iota.
+  - exists [store_ctx i st c; OPush (MRunTask i t)]. split; [reflexivity|]. right. reflexivity.
+  - rewrite handle_exception_transient, (Hg c eq_refl). exists (retry_commit i t st c). split; [reflexivity|]. left. reflexivity.
+Qed.
+
+(* P2: what that one commit does, on any state in which stage i exists *)
+Lemma store_and_push_effect s i t st c st1 :
+  get_stage s i = Some st1 ->
+  let s' := apply_commit s [store_ctx i st c; OPush (MRunTask i t)] in
+  stage_ctx s' i = Some (kv_update (s_ctx st) c) /\
+  w_queue s' = w_queue s ++ [{| q_id := w_next s; q_msg := MRunTask i t; q_attempts := 0 |}].
+Proof.
+  intros Hs. cbn zeta. split; [|reflexivity].
+  unfold stage_ctx, get_stage. unfold get_stage in Hs.
+  change (w_stages (apply_commit s [store_ctx i st c; OPush (MRunTask i t)]))
+    with (list_set (w_stages s) i (st_data st (kv_update (s_ctx st) c) (s_outs st))).
+  rewrite (nth_list_set_same _ _ _ _ Hs). reflexivity.
+Qed.
+
+Lemma retry_commit_effect s i t st c :
+  get_stage s i = Some st ->
+  let s' := apply_commit s (retry_commit i t st c) in
+  stage_ctx s' i = Some (kv_update (s_ctx st) c) /\
+  w_queue s' = w_queue s ++ [{| q_id := w_next s; q_msg := MRunTask i t; q_attempts := 0 |}].
+Proof.
+  intros Hs. destruct c as [|p c].
+  - cbn zeta. split; [|reflexivity]. unfold stage_ctx.
+    change (get_stage (apply_commit s (retry_commit i t st [])) i) with (get_stage s i). rewrite Hs. reflexivity.
+  - apply (store_and_push_effect s i t st (p :: c) st Hs).
+Qed.
+
+(* what the next execution reads: every key of the update with its last value, every other key as before *)
+Lemma kept_values k c m :
+  kv_get k (kv_update m c) = match last_binding k c with Some v => Some v | None => kv_get k m end.
+Proof. apply kv_get_update. Qed.
+
+
+Lemma find_new_row (q : list qrow) n id m :
+  Forall (fun r => q_id r < n) q -> id < n ->
+  find (fun r => q_id r =? n) (filter (fun r => negb (q_id r =? id)) (map (bump_row id) q ++ [{| q_id := n; q_msg := m; q_attempts := 0 |}]))
+  = Some {| q_id := n; q_msg := m; q_attempts := 0 |}.
+Proof.
+  intros Hq Hlt. rewrite filter_app, find_app_none.
+  - simpl. destruct (n =? id) eqn:E; [apply Nat.eqb_eq in E; lia|]. simpl. rewrite Nat.eqb_refl. reflexivity.
+  - apply find_none_ids. apply Forall_filter, Forall_ids_bump, Hq.
+Qed.
+
+Lemma find_new_row_noack (q : list qrow) n id m :
+  Forall (fun r => q_id r < n) q ->
+  find (fun r => q_id r =? n) (map (bump_row id) q ++ [{| q_id := n; q_msg := m; q_attempts := 0 |}])
+  = Some {| q_id := n; q_msg := m; q_attempts := 0 |}.
+Proof.
+  intros Hq. rewrite find_app_none.
+  - simpl. rewrite Nat.eqb_refl. reflexivity.
+  - apply find_none_ids. apply Forall_ids_bump, Hq.
+Qed.
+
+(* P3: a crash anywhere inside the delivery: the retry RunTask row is durable only together with the saved context *)
+Lemma progress_atomic_under_cut orc s id r0 i t st tk c k :
+  find_row s id = Some r0 -> q_msg r0 = MRunTask i t -> (q_attempts r0 < queue_max_attempts)%Z ->
+  mem_nat id (w_processed s) = false ->
+  get_stage s i = Some st -> nth_error (s_tasks st) t = Some tk -> t_status tk = RUNNING ->
+  w_canceled s = false -> is_complete (w_status s) = false ->
+  kept_ctx (orc i t (count_execs s i t)) = Some c ->
+  (forall c', orc i t (count_execs s i t) = RTransient c' -> retry_guard (q_attempts r0 + 1) default_max_attempts = true) ->
+  Forall (fun r => q_id r < w_next s) (w_queue s) ->
+  let s' := step orc s (DeliverCut id k) in
+  (has_row s' (w_next s) (MRunTask i t) /\ stage_ctx s' i = Some (kv_update (s_ctx st) c)) \/
+  (find_row s' (w_next s) = None /\ w_stages s' = w_stages s).
+Proof.
+  intros Hr Hm Ha Hun Hs Ht Hrun Hc Hw Hk Hg Hids s'.
+  destruct (delivery_keeps_progress orc s id true r0 i t st tk c Hr Hm Ha Hun Hs Ht Hrun Hc Hw Hk Hg) as [one [Hd Hone]].
+  destruct (find_row_id _ _ _ Hr) as [Hid Hin].
+  assert (id < w_next s) as Hlt. { rewrite <- Hid. rewrite Forall_forall in Hids. apply (Hids _ Hin). }
+  assert (find_row s (w_next s) = None) as Hnone by (apply find_none_ids; exact Hids).
+  unfold s'. cbn [step]. destruct k as [|k]; [right; split; [exact Hnone|reflexivity]|].
+  rewrite Hd. cbn [d_rest d_poll d_pre].
+  destruct k as [|k].
+  { right. split; [|reflexivity]. cbn. unfold find_row. cbn. apply find_none_ids. apply Forall_ids_bump. exact Hids. }
+  left. cbn [firstn apply_commits].
+  set (s1 := apply_pre (Some (i, t)) (apply_commit s [OBump id])).
+  assert (get_stage s1 i = Some st) as Hs1 by exact Hs.
+  assert (stage_ctx (apply_commit s1 one) i = Some (kv_update (s_ctx st) c) /\
+          w_queue (apply_commit s1 one) = map (bump_row id) (w_queue s) ++ [{| q_id := w_next s; q_msg := MRunTask i t; q_attempts := 0 |}]) as [Hctx Hq].
+  { destruct Hone as [-> | ->].
+    - apply (retry_commit_effect s1 i t st c Hs1).
+    - apply (store_and_push_effect s1 i t st c st Hs1). }
+  destruct k as [|[|k]]; cbn [firstn apply_commits].
+  - split; [|exact Hctx]. exists {| q_id := w_next s; q_msg := MRunTask i t; q_attempts := 0 |}.
+    split; [|split; reflexivity]. unfold find_row. rewrite Hq. apply find_new_row_noack. exact Hids.
+  - split.
+    + exists {| q_id := w_next s; q_msg := MRunTask i t; q_attempts := 0 |}.
+      split; [|split; reflexivity]. unfold find_row.
+      change (w_queue (apply_commit (apply_commit s1 one) [OMark id])) with (w_queue (apply_commit s1 one)).
+      rewrite Hq. apply find_new_row_noack. exact Hids.
+    + exact Hctx.
+  - rewrite firstn_nil. cbn [apply_commits].
+    split.
+    + exists {| q_id := w_next s; q_msg := MRunTask i t; q_attempts := 0 |}.
+      split; [|split; reflexivity]. unfold find_row.
+      change (w_queue (apply_commit (apply_commit (apply_commit s1 one) [OMark id]) [OAck id]))
+        with (filter (fun r => negb (q_id r =? id)) (w_queue (apply_commit s1 one))).
+      rewrite Hq. apply find_new_row; assumption.
+    + exact Hctx.
+Qed.
+
+Definition id_lt_next (s : state) (id : nat) : bool := id <? w_next s.
